@@ -231,7 +231,7 @@ def build_ocaml(res, name, Name):
         return None
     return os.path.join(WORK, 'ocaml', name, 'driver')
 
-def cargo_build(res, crate_dir, bin_name, features=None, rustflags=None, target_dir=None, extra_env=None):
+def cargo_build(res, crate_dir, bin_name, features=None, rustflags=None, target_dir=None, extra_env=None, quiet=False):
     env = dict(ENV)
     if target_dir:
         env['CARGO_TARGET_DIR'] = target_dir
@@ -249,7 +249,10 @@ def cargo_build(res, crate_dir, bin_name, features=None, rustflags=None, target_
         rc, out = sh(cmd, cwd=crate_dir, env=env, timeout=1500)
     if rc != 0:
         errs = [l for l in out.splitlines() if l.startswith('error')]
-        res.add_broken('correspondence', f"harness {os.path.basename(crate_dir)} no longer builds against /repo", ' | '.join(errs[:4]) or out[-500:])
+        if quiet:
+            res.broken.append(('correspondence', f"harness {os.path.basename(crate_dir)} does not build", ' | '.join(errs[:4]) or out[-500:]))
+        else:
+            res.add_broken('correspondence', f"harness {os.path.basename(crate_dir)} no longer builds against /repo", ' | '.join(errs[:4]) or out[-500:])
         return None
     return os.path.join(env['CARGO_TARGET_DIR'], 'debug', bin_name)
 
